@@ -414,6 +414,39 @@ pub fn stream(storage: bool) -> BoxedStrategy<Vec<u8>> {
                 cat(&ms)
             }),
         ],
+        // deep state: one large message, then more than a thousand small ones
+        1 => (big(), vec(g::message(g::MsgParams { storage: st, large: false, ..Default::default() }), 5..12), 1030usize..2100, any::<u64>()).prop_map(move |(mut first, pool, n, s)| {
+            if let RPayload::NonVerbose(_, d) | RPayload::Control(_, d) = &mut first.payload {
+                if d.len() < 5000 {
+                    d.extend(crate::util::expand_bytes(s, 5000, 1));
+                    first.len = (headers_len(first.htyp) + refcodec::payload_len(&first)) as u16;
+                }
+            }
+            let mut b = refcodec::encode(&first);
+            let enc: Vec<Vec<u8>> = pool.iter().map(refcodec::encode).filter(|e| e.len() <= 300).collect();
+            if !enc.is_empty() {
+                for i in 0..n {
+                    b.extend_from_slice(&enc[(s as usize).wrapping_add(i * 7) % enc.len()]);
+                }
+            }
+            b
+        }),
+        // a large last message, truncated inside its body
+        2 => (msgs(0..3), big(), any::<u64>(), any::<u16>()).prop_map(move |(ms, mut last, s, t)| {
+            if let RPayload::NonVerbose(_, d) | RPayload::Control(_, d) = &mut last.payload {
+                if d.len() < 40_000 {
+                    let room = 65535 - headers_len(last.htyp) - 5;
+                    d.extend(crate::util::expand_bytes(s, 40_000.min(room).saturating_sub(d.len()), 1));
+                    last.len = (headers_len(last.htyp) + refcodec::payload_len(&last)) as u16;
+                }
+            }
+            let mut b = cat(&ms);
+            let e = refcodec::encode(&last);
+            let hdr = if storage { 20 } else { 4 };
+            let keep = hdr + ((t as usize * (e.len() - hdr)) >> 16);
+            b.extend_from_slice(&e[..keep.min(e.len())]);
+            b
+        }),
         // truncated at an arbitrary offset
         16 => (msgs(1..6), any::<u16>()).prop_map(move |(ms, t)| {
             let mut b = cat(&ms);
@@ -449,8 +482,19 @@ pub fn schedule() -> BoxedStrategy<Schedule> {
         3 => Just(Step::Stall),
         1 => prop_oneof![2 => 2u16..20, 2 => 20u16..300, 1 => prop::sample::select(vec![63u16, 64, 65, 127, 128, 129, 255, 256, 257, 1000, 5000])].prop_map(Step::StallRun),
     ];
-    (vec(step, 0..60), prop_oneof![2 => Just(0u16), 2 => 1u16..=64, 1 => prop::sample::select(vec![1u16, 2, 3, 5, 7, 19, 21, 1000])], prop::bool::weighted(0.25))
-        .prop_map(|(steps, then_chunk, then_stall)| Schedule { steps, then_chunk, then_stall })
+    (
+        vec(step, 0..60),
+        prop_oneof![2 => Just(0u16), 2 => 1u16..=64, 1 => prop::sample::select(vec![1u16, 2, 3, 5, 7, 19, 21, 1000])],
+        prop::bool::weighted(0.25),
+        // sometimes the first read delivers exactly one header (with / without storage header) and nothing else
+        prop_oneof![6 => Just(None), 1 => prop::sample::select(vec![4u16, 20, 16]).prop_map(Some)],
+    )
+        .prop_map(|(mut steps, then_chunk, then_stall, first)| {
+            if let Some(k) = first {
+                steps.insert(0, Step::Data(k));
+            }
+            Schedule { steps, then_chunk, then_stall }
+        })
         .boxed()
 }
 
